@@ -123,7 +123,10 @@ class DashTiming:
                 self.publishTime -
                 datetime.timedelta(seconds=self.DEFAULT_TIMESHIFT_BUFFER_DEPTH))
         else:
-            self.availabilityStartTime = options.availabilityStartTime
+            # publishTime is a whole second and a whole number of update
+            # periods after availabilityStartTime, which can only hold if
+            # availabilityStartTime is on a whole second as well
+            self.availabilityStartTime = options.availabilityStartTime.replace(microsecond=0)
         self.elapsedTime = now - self.availabilityStartTime
         logging.debug(
             'calculate_live_params elapsed=%s (%f) now=%s availabilityStartTime=%s timescale=%d',
